@@ -370,6 +370,8 @@ def unflatten(template, shape, prefix, read):
 def coerce(v, shape):
     """Convert value v to the declared shape (queue slots, heap cells)."""
     if shape == "i":
+        if isinstance(v, SOpt) and not isinstance(v.payload, (tuple, SList)):
+            return as_bv(v.payload)  # an Optional[int] stored where the model keeps a plain int (None-ness is not tracked there)
         return as_bv(v)
     if shape == "b":
         return as_bool(v)
